@@ -125,6 +125,13 @@ func (a *application) stop(force bool, timeout time.Duration) error {
 	// update mode to prevent triggering 'permantent' mode
 	a.mode = gen.ApplicationModeTemporary
 
+	// the reason must be known before the first member terminates
+	if force {
+		a.reason = gen.TerminateReasonKill
+	} else {
+		a.reason = gen.TerminateReasonShutdown
+	}
+
 	// do not kill while iterating: killing a sleeping process terminates it
 	// synchronously and re-enters a.group (terminate -> LoadAndDelete)
 	for _, pid := range a.members() {
@@ -133,12 +140,6 @@ func (a *application) stop(force bool, timeout time.Duration) error {
 		} else {
 			a.node.SendExit(pid, gen.TerminateReasonShutdown)
 		}
-	}
-
-	if force {
-		a.reason = gen.TerminateReasonKill
-	} else {
-		a.reason = gen.TerminateReasonShutdown
 	}
 
 	select {
